@@ -32,7 +32,7 @@ package unary
 //@   modifies i, i.internal
 
 //@ func (i *Iterator) Next(ctx context.Context, span telem.TimeSpan) (ok bool)
-//@   requires wfIter(i) && span >= 0 && domain.SpecIterWF(i.internal) && domain.SpecIterOK(i.internal) && domain.SpecIterPos(i.internal) < 4611686018427387904
+//@   requires wfIter(i) && span >= 0 && domain.SpecIterWF(i.internal) && domain.SpecIterOK(i.internal)
 //@   ensures  i.bounds == old(i.bounds)
 //@   ensures  i.closed ==> i.view == old(i.view)
 //@   # forward step: the new view starts where the old one ended and is clipped to the bounds
@@ -42,6 +42,7 @@ package unary
 //@   ensures  !i.closed ==> wfIter(i)
 //@   modifies i, i.internal
 //@   loop 0 modifies &i.frame, &i.err, i.internal
+//@   loop 0 invariant domain.SpecIterWF(i.internal) && domain.SpecIterOK(i.internal)
 
 //@ func (i *Iterator) Prev(ctx context.Context, span telem.TimeSpan) (ok bool)
 //@   requires wfIter(i) && span >= 0 && domain.SpecIterWF(i.internal) && domain.SpecIterOK(i.internal)
@@ -53,10 +54,11 @@ package unary
 //@   ensures  !i.closed ==> wfIter(i)
 //@   modifies i, i.internal
 //@   loop 0 modifies &i.frame, &i.err, i.internal
+//@   loop 0 invariant domain.SpecIterWF(i.internal) && domain.SpecIterOK(i.internal)
 
 //@ # which bound of the distance approximation is used as the sample offset (selection table)
 //@ func pickSampleOffset(approx index.DistanceApproximation) (off int64)
-//@   requires 0 <= approx.Lower && approx.Lower <= approx.Upper
+//@   requires 0 <= approx.Lower && approx.Lower <= approx.Upper && approx.Upper <= 4611686018427387903
 //@   ensures  approx.Lower == approx.Upper || approx.StartExact ==> off == approx.Upper
 //@   ensures  approx.Lower != approx.Upper && !approx.StartExact && approx.EndExact ==> off == approx.Lower
 //@   ensures  approx.Lower != approx.Upper && !approx.StartExact && !approx.EndExact ==> off == (approx.Lower + approx.Upper) / 2
